@@ -33,10 +33,10 @@ pub fn spec(prop: &str) -> Option<Spec> {
         "C01" => s("C01", Engine::Core, (600_000, 200_000), (30_000_000, 10_000_000), "seeded core histories, equality cutoffs only; non-trivial = a node was unobserved during a write to its cone and observed again, or a bind switched its right-hand side; distinct = distinct sequence of recomputed node kinds over the run"),
         "C02" => s("C02", Engine::Core, (600_000, 200_000), (30_000_000, 10_000_000), "seeded core histories with sibling-biased binds, link-order variation and in-bucket tie-break; non-trivial = a bind switched in a round where nodes of at least two kinds recomputed; distinct = distinct recompute-order sequence"),
         "C03" => s("C03", Engine::Core, (600_000, 200_000), (30_000_000, 10_000_000), "seeded core histories with exported bind-built nodes; non-trivial = a bind re-ran while nodes of its previous run existed (they were invalidated); distinct = distinct recompute-order sequence"),
-        "C04" => s("C04", Engine::Core, (600_000, 300_000), (30_000_000, 15_000_000), "seeded well-formed core histories in both build flavours; non-trivial = run reached adjust-heights, a dropped bind-built node, duplicate parents removal, or handler-phase re-entrancy (probe counters); distinct = distinct recompute-order sequence"),
+        "C04" => s("C04", Engine::Core, (600_000, 300_000), (30_000_000, 15_000_000), "seeded well-formed histories in both build flavours: core (13 in 16), expert API, incremental-map operators and typed shapes (3 in 16); non-trivial = run reached adjust-heights, a dropped bind-built node, duplicate parents removal, or handler-phase re-entrancy (probe counters); distinct = distinct recompute-order sequence"),
         "C05" => s("C05", Engine::Core, (600_000, 200_000), (30_000_000, 10_000_000), "seeded core histories heavy on observer creation/drop/disallow; non-trivial = a stabilise ran with a pending write whose cone had no live observer, or a node ran that was needed only at the start of the round; distinct = distinct recompute-order sequence"),
         "C06" => s("C06", Engine::Core, (600_000, 200_000), (30_000_000, 10_000_000), "seeded core histories with all cutoff kinds on all node kinds; non-trivial = some cutoff suppressed and some cutoff passed a result in the same run; distinct = distinct recompute-order sequence"),
-        "C07" => s("C07", Engine::Core, (600_000, 200_000), (30_000_000, 10_000_000), "seeded core histories with reads after every action and from inside callbacks; non-trivial = reads were issued from inside node functions or handlers and between a write and its stabilise; distinct = distinct recompute-order sequence"),
+        "C07" => s("C07", Engine::Core, (600_000, 200_000), (30_000_000, 10_000_000), "seeded core histories with reads after every action and from inside callbacks, every observed value compared with a from-scratch evaluation at the end of each stabilise (equality cutoffs only), plus (1 in 16) expert-API histories whose observability callback writes a variable inside stabilise; non-trivial = reads were issued from inside node functions or handlers and between a write and its stabilise; distinct = distinct recompute-order sequence"),
         "C08" => s("C08", Engine::Core, (600_000, 200_000), (30_000_000, 10_000_000), "seeded core histories heavy on the five write operations from top level, node functions and handlers; non-trivial = a deferred or handler-phase write happened; distinct = distinct recompute-order sequence"),
         "C09" => s("C09", Engine::Core, (600_000, 200_000), (30_000_000, 10_000_000), "seeded core histories heavy on subscriptions; non-trivial = at least two notifications were delivered and an observer or subscription was added to a node that already had a subscriber; distinct = distinct recompute-order sequence"),
         "C10" => s("C10", Engine::Core, (600_000, 200_000), (30_000_000, 10_000_000), "seeded observer lifecycle histories; non-trivial = at least three lifecycle results (subscribe/unsubscribe outcomes) were judged; distinct = distinct recompute-order sequence"),
@@ -100,6 +100,12 @@ pub fn profile(prop: &str) -> Profile {
             p.w_write = 28;
         }
         "C07" => {
+            // the one-snapshot clause is judged against a from-scratch evaluation, which needs
+            // cutoffs that only suppress equal values
+            p.noneq_cutoffs = false;
+            p.w_observe = 12;
+            p.w_dropobs = 7;
+            p.mapref_skeleton_pct = 10;
             p.fx_pct = 35;
             p.hfx_pct = 60;
             p.w_sub = 8;
